@@ -4,8 +4,4 @@
  * environment) contains one; it is never waited on or notified in this unit, so both are empty. */
 #ifndef VF_C15_REDUCIBLE_STUBS_H
 #define VF_C15_REDUCIBLE_STUBS_H
-#define VF_HAVE_x__ZNSt18condition_variableC1Ev
-VF_X void x__ZNSt18condition_variableC1Ev(char* self) { (void)self; }
-#define VF_HAVE_x__ZNSt18condition_variableD1Ev
-VF_X void x__ZNSt18condition_variableD1Ev(char* self) { (void)self; }
 #endif
